@@ -45,8 +45,44 @@ def ud_value(ud):
     return ud[1] if ud[0] == 'obj' else json.loads(ud[1])
 
 
+def py_canon(v):
+    """canonical form of a JSON value under PYTHON equality (what JSONData.__eq__ applies to the parsed blobs):
+    True == 1 == 1.0, False == 0; dict order irrelevant (sort_keys at dump time)"""
+    if isinstance(v, bool):
+        return int(v)
+    if isinstance(v, float):
+        return int(v) if v == int(v) else ['__float__', repr(v)]
+    if isinstance(v, list):
+        return [py_canon(x) for x in v]
+    if isinstance(v, dict):
+        return {k: py_canon(x) for k, x in v.items()}
+    return v
+
+
+def json_canon(v):
+    """canonical form under JSON-value equality, the reading of "equal-valued user data" taken for the property:
+    numbers compare numerically (JSON has one number type: 1 and 1.0 are the same value), true/false are NOT numbers"""
+    if isinstance(v, bool):
+        return ['__bool__', v]
+    if isinstance(v, float):
+        return int(v) if v == int(v) else ['__float__', repr(v)]
+    if isinstance(v, list):
+        return [json_canon(x) for x in v]
+    if isinstance(v, dict):
+        return {k: json_canon(x) for k, x in v.items()}
+    return v
+
+
 def ud_token(ud):
-    return json.dumps(ud_value(ud), sort_keys=True)
+    """what the model interns: the class of the value under the code's (Python) equality"""
+    return json.dumps(py_canon(ud_value(ud)), sort_keys=True)
+
+
+def ud_json_token(ud):
+    return json.dumps(json_canon(ud_value(ud)), sort_keys=True)
+
+
+UD_PY = [False]     # oracle switch: True = judge user data as Python == does (only to recognise finding C17-3)
 
 
 # ----------------------------------------------------------------------------------------------
@@ -195,7 +231,8 @@ def own_flags(x, y):
         f |= 1
     if norm_cap(x['cap']) != norm_cap(y['cap']):
         f |= 2
-    if (x['ud'] is None) != (y['ud'] is None) or (x['ud'] is not None and ud_token(x['ud']) != ud_token(y['ud'])):
+    tok = ud_token if UD_PY[0] else ud_json_token
+    if (x['ud'] is None) != (y['ud'] is None) or (x['ud'] is not None and tok(x['ud']) != tok(y['ud'])):
         f |= 4
     return f
 
@@ -341,9 +378,18 @@ def judge(case, o):
     if o['an'] is not None:
         return 'diff(None) is not None'
     why = []
+    boolnum = 0
     for tag, x, y in (('ab', a, b), ('ba', b, a)):
         exp = expected(x, y)
         if o[tag] != exp:
+            UD_PY[0] = True
+            try:
+                exp_py = expected(x, y)
+            finally:
+                UD_PY[0] = False
+            if o[tag] == exp_py:
+                boolnum += 1
+                continue
             if spurious_only(x, y, o[tag], exp):
                 why.append('spurious-SUB_INTERFACES-on-port-with-own-property-change')
             else:
@@ -352,6 +398,8 @@ def judge(case, o):
         if all(w.startswith('spurious-SUB_INTERFACES') for w in why):
             return 'spurious-SUB_INTERFACES-on-port-with-own-property-change only'
         return 'not exact: ' + ' | '.join(w for w in why)
+    if boolnum:
+        return 'userdata-bool-number-conflated only'
     ab, ba = o['ab'], o['ba']
     e4 = [[], [], [], []]
     if (ab['added'] if ab else e4) != (ba['removed'] if ba else e4) or \
@@ -372,6 +420,8 @@ CAP_POOL = {'core': [0, 1, 2, 8], 'ram': [0, 4, 8], 'disk': [0, 10, 100], 'bw': 
 UD_POOL = [['obj', {}], ['obj', {'a': 1}], ['text', '{"a": 1}'], ['text', '{"a":1}'], ['obj', {'a': 1, 'b': [1, 2]}],
            ['obj', {'b': [1, 2], 'a': 1}], ['text', '{ "b": [1, 2], "a": 1 }'], ['obj', {'a': 2}], ['obj', [1, 2]],
            ['text', '[1,2]'], ['text', '"x"'], ['text', ' "x" '], ['text', 'null'], ['text', '{}'],
+           ['obj', {'a': True}], ['obj', {'a': 1.0}], ['text', '{"a": 1.0}'], ['obj', {'a': 1.5}], ['text', '{"a": 1.50}'],
+           ['obj', [True, 0]], ['text', '[1, false]'], ['obj', {'a': False}], ['obj', {'a': 0}], ['text', '{"a": 0.0}'],
            ['obj', {'fablib_data': {'mode': 'auto', 'addr': None}}],
            ['text', '{"fablib_data": {"addr": null, "mode": "auto"}}']]
 
@@ -998,8 +1048,8 @@ class HistoryS(DiffStream):
     level = 'node'
     case_type = 'list ((node * node) * (obs * obs * obs * obs))'
     check_fn = 'check_node_history'
-    counts = (120, 2500)
-    shard = 60
+    counts = (100, 2500)
+    shard = 50
     rule = ('two long-lived NodeSliver trees edited IN PLACE through the sliver/container mutators for 2-5 steps (same edit '
             'vocabulary, sometimes swapping old/new), compared after every step in both directions, each call twice, deep '
             'snapshots of both operands around every call; the final step undoes all edits and must report nothing; the Coq '
@@ -1387,7 +1437,7 @@ class TopoS(Stream):
     case_type = '(topo * topo) * (obs * obs * obs)'
     check_fn = 'check_topo'
     shard = 100
-    counts = (100, 1500)
+    counts = (80, 1500)
     rule = ('ExperimentTopology pairs built through the public API (add_node/add_component/add_network_service/'
             'add_child_interface), copy = serialize + load under a new graph id, then 0-5 edits on the copy (set/unset labels, '
             'capacities, user data on nodes/components/services/interfaces; add/remove node, component, service, '
@@ -1543,6 +1593,17 @@ def witness_case():
     return {'level': 'svc', 'a': mk('100'), 'b': mk('101'), 'edits': ['lab:if']}
 
 
+def replay_bool_number_witness():
+    """user data {"a": true} -> {"a": 1}: a different JSON value, equal under Python =="""
+    def nd(ud):
+        return {'k': 'node', 'name': 'node1', 'id': 'id-node1', 'type': 'VM', 'lab': None, 'cap': None, 'ud': ud,
+                'comps': None, 'svcs': None}
+    c = {'level': 'node', 'a': nd(['obj', {'a': True}]), 'b': nd(['obj', {'a': 1}]), 'edits': ['ud:node']}
+    o = NodeS().observe(c)
+    still = o['ab'] is None and expected(c['a'], c['b']) is not None
+    return still, {'case': c, 'implementation': o['ab'], 'expected': expected(c['a'], c['b'])}
+
+
 def replay_port_flag_witness():
     c = witness_case()
     o = SvcS().observe(c)
@@ -1570,12 +1631,13 @@ class C17(Check):
     ]
     assumptions = [
         'both slivers are of the same class (the code asserts it) and their children dictionaries are keyed by resource_name',
-        'Labels/Capacities objects carry the current field list; capacity fields are ints; user-data values contain no floats/bools (1 == 1.0 == True in Python)',
+        'Labels/Capacities objects carry the current field list; capacity fields are ints; user data is interned by its class under Python == (True == 1 == 1.0), the equality JSONData.__eq__ applies; the oracle judges by JSON-value equality (booleans are not numbers) - the gap is known finding C17-3',
         'well-formed: only DedicatedPorts have child interfaces; a SmartNIC component has exactly one network service; an element present in both versions keeps its type',
     ]
 
     def refuted_witnesses(self):
         return [('C17_service_flags_exact_refuted', replay_port_flag_witness),
+                ('C17_userdata_bool_number', replay_bool_number_witness),
                 ('C17_topology_exact_refuted_silent_change', lambda: replay_topo_witness(1)),
                 ('C17_topology_exact_refuted_last_of_class', lambda: replay_topo_witness(2))]
 
